@@ -3,7 +3,10 @@
 (* Trace validation (code -> spec) for get_component_files / autodiscover. *)
 (* IOEnv.IN names an ndjson file; each line is one recorded session over   *)
 (* several roots at once (COMPONENTS.dirs / STATICFILES_DIRS entries and   *)
-(* app directories), `roots` giving kind and prefix of each:               *)
+(* app directories), `roots` giving kind, prefix and the places where the  *)
+(* configuration mentions each (src), `cfg` whether COMPONENTS.dirs and    *)
+(* app_dirs are given (Autodiscover!Searched); directories that exist but  *)
+(* are not searched are roots too, their files must not be returned:       *)
 (*   mk / rm   an entry [k, kind, parts] was created / removed on disk     *)
 (*   scan      got = entries returned by get_component_files(sfx), each    *)
 (*             mapped back to (root k, parts) with its dot_path            *)
@@ -25,6 +28,7 @@ trVars == <<tid, l, phase, trees, clean>>
 Events == Traces[tid].events
 Ev == Events[l]
 Roots == Traces[tid].roots
+TCfg == Traces[tid].cfg
 Empty(n) == [k \in 1..n |-> {}]
 
 TrInit == tid = 1 /\ l = 1 /\ phase = "step" /\ trees = Empty(Len(Traces[1].roots)) /\ clean = TRUE
@@ -47,35 +51,41 @@ Agrees(got, rows) ==
 
 ScanFailing(e) ==
   LET g == {e.got[i] : i \in DOMAIN e.got}
-      exp == Expected(Roots, trees, e.sfx)
-      dev == DevExpected(Roots, trees, e.sfx)
+      exp == Expected(TCfg, Roots, trees, e.sfx)
+      dev == DevExpected(TCfg, Roots, trees, e.sfx)
       dup == Cardinality(KP(g)) # Len(e.got) IN
   IF ~dup /\ Agrees(e.got, exp) THEN {}
-  ELSE IF ~dup /\ Agrees(e.got, dev) /\ DevKeysFor(Roots, trees, e.sfx) # {}
-       THEN Dev(DevKeysFor(Roots, trees, e.sfx))
+  ELSE IF ~dup /\ Agrees(e.got, dev) /\ DevKeysFor(TCfg, Roots, trees, e.sfx) # {}
+       THEN Dev(DevKeysFor(TCfg, Roots, trees, e.sfx))
        ELSE (IF dup THEN {"returned_twice"} ELSE {})
+            \* a file of a directory the configuration does not make a component directory
+            \cup (IF \E x \in g : x.k \in DOMAIN Roots /\ x.k \notin Active(TCfg, Roots)
+                  THEN {"directory_not_searched"} ELSE {})
+            \cup (IF \E k \in Active(TCfg, Roots) : \E r \in exp : r.k = k /\ ~\E x \in g : x.k = k
+                  THEN {"searched_directory_missing"} ELSE {})
             \cup (IF KP(g) # KP(exp) THEN {"selection"} ELSE {})
             \cup (IF KP(g) = KP(exp) /\ ~Agrees(e.got, exp) THEN {"dot_path"} ELSE {})
 
 LoadFailing(e) ==
   LET x == File(e.parts) IN
-  IF x \in trees[e.k] /\ Selected(x, ".py") /\ Loadable(trees[e.k], x)
+  IF e.k \in Active(TCfg, Roots) /\ x \in trees[e.k] /\ Selected(x, ".py") /\ Loadable(trees[e.k], x)
   THEN (IF e.dot = DotPath(Roots[e.k], x) THEN {} ELSE {"dot_path"})
        \cup (IF e.res = "same" THEN {} ELSE {"import_loads_other_or_fails"})
   ELSE {}
 
-AutoOK == \A k \in DOMAIN Roots :
+AutoOK == \A k \in Active(TCfg, Roots) :
             /\ \A x \in trees[k] : Selected(x, ".py") => Loadable(trees[k], x)
             /\ ~Roots[k].globmeta
             /\ ~\E x \in AllEntries(trees[k]) : x.kind = "dir" /\ DevDirSelected(x, ".py")
 AutoFailing(e) ==
-  LET want == UNION {{DotPath(Roots[k], x) : x \in {y \in trees[k] : Selected(y, ".py")}} : k \in DOMAIN Roots}
-      wantN == Cardinality(UNION {{<<k, x>> : x \in {y \in trees[k] : Selected(y, ".py")}} : k \in DOMAIN Roots}) IN
+  LET act == Active(TCfg, Roots)
+      want == UNION {{DotPath(Roots[k], x) : x \in {y \in trees[k] : Selected(y, ".py")}} : k \in act}
+      wantN == Cardinality(UNION {{<<k, x>> : x \in {y \in trees[k] : Selected(y, ".py")}} : k \in act}) IN
   IF ~AutoOK THEN {"bad_case"} ELSE
   (IF {e.got[i] : i \in DOMAIN e.got} = want /\ Len(e.got) = wantN THEN {} ELSE {"autodiscover_modules"})
   \cup (IF \A i \in DOMAIN e.loaded :
              LET m == e.loaded[i] IN
-             /\ m.k \in DOMAIN Roots
+             /\ m.k \in Active(TCfg, Roots)
              /\ File(m.parts) \in trees[m.k]
              /\ m.dot = DotPath(Roots[m.k], File(m.parts))
         THEN {} ELSE {"autodiscover_loaded_wrong_file"})
@@ -102,6 +112,7 @@ TrSpec == TrInit /\ [][TrNext]_trVars
 
 \* no entry inside a file, no file and directory of the same path (the recorder keeps this)
 TreesWellFormed == tid <= Len(Traces) =>
-  \A k \in DOMAIN trees : \A a, b \in trees[k] :
-     a # b => a.parts # b.parts /\ ~(a.kind = "file" /\ IsPrefix(a.parts, b.parts))
+  /\ \A k \in DOMAIN trees : \A a, b \in trees[k] :
+       a # b => a.parts # b.parts /\ ~(a.kind = "file" /\ IsPrefix(a.parts, b.parts))
+  /\ CfgWellFormed(TCfg, Roots)
 =============================================================================
